@@ -57,6 +57,36 @@ def _rename_callee_strings(fn, old, new):
         fn["name"] = new
 
 
+def _move_fn(facts, crate, nb, newpath, oldp):
+    """A free fn found under a new module path: bodies, nested bodies and callee references get the inventory path back."""
+    dps = set()
+    for b in crate.bodies:
+        if b.path == newpath or b.path.startswith(newpath + "::"):
+            if b is nb:
+                dps.add(b.dp)
+            b.path = oldp + b.path[len(newpath):]
+            b.j["path"] = b.path
+
+    def fix(fn):
+        for k in ("path", "def", "res_path"):
+            v = fn.get(k)
+            if isinstance(v, str) and newpath in v:
+                fn[k] = v.replace(newpath, oldp)
+    for b in facts.all_bodies():
+        for _bi, t in b.calls():
+            f = t["func"]
+            fn = f.get("fn") if isinstance(f, dict) else None
+            if fn and (fn.get("dp") in dps or fn.get("res") in dps):
+                fix(fn)
+        for blk in b.blocks:
+            for s in blk["stmts"]:
+                if s["k"] == "Assign":
+                    for o in s["rv"].get("ops", []):
+                        fn = o.get("fn") if o.get("k") == "const" else None
+                        if fn and fn.get("dp") in dps:
+                            fix(fn)
+
+
 def apply_renames(facts, log):
     inv = inventory()
     for crate in facts.crates.values():
@@ -70,19 +100,30 @@ def apply_renames(facts, log):
             continue
         for nb in new:
             cands = [p for p in missing if known[p]["owner"] == owner_of(nb) and known[p]["sig"] == sig_of(nb)]
+            moved = False
+            if len(cands) != 1 and owner_of(nb).startswith("mod:"):
+                # a free function moved to another (sub)module: same name, same signature, old path gone
+                cands = [p for p in missing if known[p]["owner"].startswith("mod:") and known[p]["name"] == nb.name and known[p]["sig"] == sig_of(nb)]
+                moved = True
             if len(cands) != 1:
                 continue
             # the same old function must not be claimed by two new ones
-            rivals = [x for x in new if x is not nb and known[cands[0]]["owner"] == owner_of(x) and known[cands[0]]["sig"] == sig_of(x)]
+            if moved:
+                rivals = [x for x in new if x is not nb and x.name == nb.name and owner_of(x).startswith("mod:") and sig_of(x) == sig_of(nb)]
+            else:
+                rivals = [x for x in new if x is not nb and known[cands[0]]["owner"] == owner_of(x) and known[cands[0]]["sig"] == sig_of(x)]
             if rivals:
                 continue
             oldp = cands[0]
             oldname, newname = known[oldp]["name"], nb.name
-            if oldname == newname:
+            if oldname == newname and not moved:
                 continue
             missing.remove(oldp)
-            log.append("rename %s::%s -> treated as %s" % (crate.name, nb.path, oldp))
+            log.append("%s %s::%s -> treated as %s" % ("move" if moved else "rename", crate.name, nb.path, oldp))
             newpath = nb.path
+            if moved:
+                _move_fn(facts, crate, nb, newpath, oldp)
+                continue
             dps = set()
             for b in crate.bodies:
                 if b.path == newpath or b.path.startswith(newpath + "::"):
@@ -449,10 +490,147 @@ def apply_async_splice(facts, crate, known, log):
             crate.children[h.parent] = [c for c in crate.children[h.parent] if c is not h]
 
 
+def adt_shape(a):
+    return {"path": a.get("path"), "kind": a.get("kind"),
+            "variants": [[v["name"], [[f["name"], f["ty"]] for f in v["fields"]]] for v in a["variants"]]}
+
+
+def _tokens(ty):
+    return re.findall(r"[A-Za-z_][A-Za-z0-9_]*|[^A-Za-z0-9_\s]", ty or "")
+
+
+def detect_adt_renames(facts):
+    """[(old dp, new dp)] for local types that disappeared / appeared with the same shape; ambiguity (two types of the same
+    shape renamed together) is resolved through fields of unchanged types that mention them."""
+    inv = inventory().get("__adts__")
+    if not inv:
+        return []
+    cur = {}
+    for c in facts.crates.values():
+        for dp, a in c.adts.items():
+            if a.get("local"):
+                cur[dp] = adt_shape(a)
+    missing = [dp for dp in inv if dp not in cur and dp.split("::")[0] in facts.crates]
+    new = [dp for dp in cur if dp not in inv]
+    if not missing or not new:
+        return []
+    hints = {}   # old last segment -> new last segment, from field types of types that kept their path
+    for dp, sh in cur.items():
+        old = inv.get(dp)
+        if not old or len(old["variants"]) != len(sh["variants"]):
+            continue
+        for (vn0, f0), (vn1, f1) in zip(old["variants"], sh["variants"]):
+            if len(f0) != len(f1):
+                continue
+            for (n0, t0), (n1, t1) in zip(f0, f1):
+                a, b = _tokens(t0), _tokens(t1)
+                if t0 != t1 and len(a) == len(b):
+                    for x, y in zip(a, b):
+                        if x != y:
+                            hints[x] = y
+
+    def names_only(sh):
+        return [[v[0], [f[0] for f in v[1]]] for v in sh["variants"]]
+    pairs = []
+    for o in missing:
+        mod = o.rsplit("::", 1)[0]
+        cands = [n for n in new if n.rsplit("::", 1)[0] == mod and cur[n]["kind"] == inv[o]["kind"] and names_only(cur[n]) == names_only(inv[o])]
+        hinted = [n for n in cands if hints.get(o.rsplit("::", 1)[1]) == n.rsplit("::", 1)[1]]
+        if len(hinted) == 1:
+            cands = hinted
+        if len(cands) == 1 and not any(p[1] == cands[0] for p in pairs):
+            pairs.append((o, cands[0]))
+    return pairs
+
+
+def adt_rename_filter(pairs):
+    """Text filter for the fact files: the module-qualified new type name is written back as the inventory name."""
+    subs = []
+    for o, n in pairs:
+        orel, nrel = o.split("::", 1)[1], n.split("::", 1)[1]
+        if "::" in nrel:
+            subs.append((re.compile(r"(?<![A-Za-z0-9_])" + re.escape(nrel) + r"(?![A-Za-z0-9_])"), orel))
+        else:
+            # a type at the crate root: its bare name is replaced as a whole identifier
+            subs.append((re.compile(r"(?<![A-Za-z0-9_])" + re.escape(nrel) + r"(?![A-Za-z0-9_])"), orel))
+
+    def f(txt):
+        for rx, rep in subs:
+            txt = rx.sub(rep.replace("\\", "\\\\"), txt)
+        return txt
+    return f
+
+
+def apply_field_renames(facts, log):
+    """A private field renamed in a type that kept its path, field count, order and field types: the inventory name is
+    written back in the type, in every projection through it and in every aggregate of it."""
+    inv = inventory().get("__adts__")
+    if not inv:
+        return
+    ren = {}   # (adt dp, variant name, index) -> (new, old)
+    for c in facts.crates.values():
+        for dp, a in c.adts.items():
+            old = inv.get(dp)
+            if not a.get("local") or not old or len(old["variants"]) != len(a["variants"]):
+                continue
+            for (vn0, f0), v1 in zip(old["variants"], a["variants"]):
+                f1 = v1["fields"]
+                if vn0 != v1["name"] or len(f0) != len(f1) or [t for _n, t in f0] != [f["ty"] for f in f1]:
+                    continue
+                for i, ((n0, _t), fl) in enumerate(zip(f0, f1)):
+                    if n0 != fl["name"]:
+                        ren[(dp, vn0, i)] = (fl["name"], n0)
+                        fl["name"] = n0
+    if not ren:
+        return
+    by_adt = {}
+    for (dp, vn, i), (newn, oldn) in ren.items():
+        by_adt.setdefault(dp, {})[(i, newn)] = oldn
+        log.append("field rename %s.%s -> treated as %s" % (dp, newn, oldn))
+
+    def fix_place(p):
+        for e in p.get("p") or []:
+            if isinstance(e, dict) and "f" in e and e.get("o") in by_adt:
+                k = (e.get("i"), e["f"])
+                if k in by_adt[e["o"]]:
+                    e["f"] = by_adt[e["o"]][k]
+
+    def fix_op(o):
+        if isinstance(o, dict) and "p" in o:
+            fix_place(o["p"])
+    for b in facts.all_bodies():
+        for blk in b.blocks:
+            for s in blk["stmts"]:
+                if "lhs" in s:
+                    fix_place(s["lhs"])
+                rv = s.get("rv")
+                if rv:
+                    for o in rv.get("ops", []):
+                        fix_op(o)
+                    if "place" in rv:
+                        fix_place(rv["place"])
+                    ag = rv.get("agg")
+                    if ag and ag.get("a") == "Adt" and ag.get("adt") in by_adt and isinstance(ag.get("fields"), list):
+                        ag["fields"] = [by_adt[ag["adt"]].get((i, f), f) for i, f in enumerate(ag["fields"])]
+            t = blk["term"]
+            for k in ("discr", "cond", "value"):
+                if k in t:
+                    fix_op(t[k])
+            for a in t.get("args", []):
+                fix_op(a)
+            for k in ("dest", "place", "resume_arg"):
+                if k in t and isinstance(t[k], dict):
+                    fix_place(t[k])
+        for d in b.j.get("dbg", []):
+            fix_place(d["p"])
+        b._defs = None
+
+
 def apply(facts):
     log = []
     if not os.path.exists(INV):
         return log
+    apply_field_renames(facts, log)
     apply_renames(facts, log)
     apply_inlining(facts, log)
     facts.normalize_log = log
@@ -469,6 +647,10 @@ def gen_inventory(all_facts):
             d = out.setdefault(crate.name, {})
             for b in fn_items(crate):
                 d.setdefault(b.path, {"name": b.name, "owner": owner_of(b), "sig": sig_of(b)})
+            ads = out.setdefault("__adts__", {})
+            for dp, a in crate.adts.items():
+                if a.get("local"):
+                    ads.setdefault(dp, adt_shape(a))
             cs = out.setdefault("__consts__", {})
             for dp in crate.consts:
                 cs[dp] = 1
